@@ -768,6 +768,14 @@ Dup(a, e) ==
   IF e.got_props = e.want_props /\ e.got_events = e.want_events THEN a
   ELSE Viol(a, "C06", "equal-attachments-merged-or-multiplied", [props |-> <<e.want_props, e.got_props>>, events |-> <<e.want_events, e.got_events>>])
 
+\* LocalSpan::with_property on a span that is not the innermost handle (a scope opened later is still alive;
+\* release order as required): the call returns and the property arrives on that span (C07, C06).
+\* On the pinned code it does not: listed finding D20, signature with-line.
+WithLine(a, e) ==
+  IF e.outcome = "ok" THEN a
+  ELSE ViolK(ViolK(a, "C07", "with_properties-under-a-later-scope", e.outcome, "with-line"),
+             "C06", "with_properties-under-a-later-scope", e.outcome, "with-line")
+
 \* a long backlog on one queue (fewer commands than the queue holds, so nothing is refused), no cycle in
 \* between, then one flush(): everything finished before the call is there when it returns (C01 / C03)
 Burst(a, e) ==
@@ -888,6 +896,7 @@ AbsStep(a, e) ==
     [] e.ev = "ids"       -> Ids(a, e)
     [] e.ev = "burst"     -> Burst(a, e)
     [] e.ev = "dup"       -> Dup(a, e)
+    [] e.ev = "withline"  -> WithLine(a, e)
     [] OTHER              -> a
 
 RECURSIVE AbsRun(_, _, _)
